@@ -158,7 +158,7 @@ Fit(t, prm) ==
 
 \* strftime specifiers: a few known to be valid, a few known to be invalid (a '%' at the end, %Q, %!);
 \* a format using anything else is rendered as "<date?>" (date or error marker, never a panic)
-KnownGood == {"Y", "m", "d", "H", "M", "S", "+", "%"}
+KnownGood == {"Y", "m", "d", "H", "M", "S", "+", "%", "Z", "z", "a", "b", "e", "j", "y"}
 KnownBad == {"Q", "!"}
 RECURSIVE BadStrftime(_, _), GoodStrftime(_, _)
 BadStrftime(f, i) == IF i > Len(f) THEN FALSE
